@@ -102,9 +102,13 @@ def expand (sw : Switches) (frontier : List (Img × Bool)) : List (Img × Bool) 
     Op.all.filterMap fun op =>
       if allowed sw op then (applyOp sw op img).map fun o => (o, op.isLeaf) else none
 
+/-- add newly found images to `seen`; returns the new `seen` and the fresh frontier. An image first
+    met as a leaf result and met again as an ordinary result is upgraded (and expanded): whether a
+    result is reduced further depends on the call site that produced it, not on the image. -/
 def dedupInto (seen : List (Img × Bool)) (new : List (Img × Bool)) : List (Img × Bool) × List (Img × Bool) :=
   new.foldl (fun (st : List (Img × Bool) × List (Img × Bool)) x =>
-    if st.1.any (fun y => y.1 = x.1) then st else (x :: st.1, x :: st.2)) (seen, [])
+    if st.1.any (fun y => y.1 = x.1 ∧ (y.2 = false ∨ x.2 = true)) then st
+    else (x :: st.1.filter (fun y => y.1 ≠ x.1), x :: st.2.filter (fun y => y.1 ≠ x.1))) (seen, [])
 
 /-- all images reachable from `start` in at most `depth` allowed operations -/
 def closure (sw : Switches) (start : Img) (depth : Nat) : List Img :=
